@@ -3,7 +3,7 @@
    evidence hands the member over for suspicion; an unrefuted suspicion timeout declares it Down
    and notifies MemberDown), the effects of leaving and the silence of a defunct instance.
    The cluster-wide bound is decided by crash / leave simulations of real instances. *)
-From Foca Require Import Laws MembersM ProbeM FocaM WireM L_Members L_MembersInv L_Join Inv L_Wire L_Probe L_Mech L_RoundRobin L_Timeout L_Discard.
+From Foca Require Import Laws MembersM ProbeM FocaM WireM L_Members L_MembersInv L_Join Inv L_Wire L_Probe L_Mech L_RoundRobin L_Timeout L_Discard L_Acct L_RoundSuspect.
 
 Section C03.
 Context {Id Addr : Type} {IO : IdOps Id Addr} {CO : CodecOps Id} {HO : HandlerOps Id}.
@@ -59,6 +59,22 @@ Theorem C03_defunct_does_not_refute (rnd : oracle) (s : @rs Id Addr HO) (i : N) 
   out (fst (handle_self_update rnd i Suspect s)) = out s.
 Proof. exact (defunct_does_not_refute rnd s i). Qed.
 
+(* the hand-over from probing to the suspicion timeout, as one call: at the ProbeRandomMember timer
+   a round that failed on a target still Alive at the probed incarnation leaves that member Suspect
+   in the list and schedules exactly the timeout C03_unrefuted_timeout_declares_down is about (same
+   identity, same incarnation, the current token), the instance staying Connected *)
+Theorem C03_failed_round_hands_over_to_timeout (rnd : oracle) (f : @foca Id Addr HO) (fm k : member Id) :
+  conn f = Connected ->
+  snd (probe_take_failed (if negb (probe_validate (prb f)) then probe_clear (prb f) else prb f)) = Some fm ->
+  lookup (inner (mems f)) (addr_of (m_id fm)) = Some k ->
+  m_id k = m_id fm -> m_inc k = m_inc fm -> m_state k = Alive ->
+  let '(f1, es, r, _) := step rnd f (ITimer (TProbeRandomMember (token f))) in
+  clean r ->
+  In (mkMember (m_id fm) (m_inc fm) Suspect) (inner (mems f1))
+  /\ In (Submit (TChangeSuspectToDown (m_id fm) (m_inc fm) (token f1)) (suspect_to_down_after (cfg f1))) es
+  /\ conn f1 = Connected /\ token f1 = token f.
+Proof. exact (failed_round_hands_over rnd f fm k). Qed.
+
 End C03.
 
 Print Assumptions C03_probed_within_2n_minus_1.
@@ -67,3 +83,4 @@ Print Assumptions C03_unrefuted_timeout_declares_down.
 Print Assumptions C03_leave_ends_defunct.
 Print Assumptions C03_defunct_ignores_messages.
 Print Assumptions C03_defunct_does_not_refute.
+Print Assumptions C03_failed_round_hands_over_to_timeout.
